@@ -112,15 +112,16 @@ def acceptedBlocks (env : Env) : State → List String → List Block
       | .ok s' => b :: acceptedBlocks env s' rest
       | _ => []
 
-/-- the announced headers that `insert_next_block_headers` stores (headers already stored are
-    skipped; the first undecodable / invalid / unconnected header ends the loop) -/
-def insertedHeaders (env : Env) (s : State) : List String → List NextHeader
+/-- the announced headers that the loop body of `insert_next_block_headers` stores when it is run
+    over the whole list (headers already stored are skipped; the first undecodable / invalid /
+    unconnected header ends the loop) -/
+def insertedHeadersAll (env : Env) (s : State) : List String → List NextHeader
   | [] => []
   | raw :: rest =>
     match env.dec.header raw with
     | none => []
     | some h =>
-      if (s.unstable.next.getHeader h.hash).isSome then insertedHeaders env s rest
+      if (s.unstable.next.getHeader h.hash).isSome then insertedHeadersAll env s rest
       else
         match validationContextWithNext s (hdrOfNext h) with
         | .error _ => []
@@ -129,8 +130,13 @@ def insertedHeaders (env : Env) (s : State) : List String → List NextHeader
           | .ok =>
             match s.unstable.insertNextHeader h s.stableHeight with
             | none => []
-            | some u => h :: insertedHeaders env { s with unstable := u } rest
+            | some u => h :: insertedHeadersAll env { s with unstable := u } rest
           | _ => []
+
+/-- the announced headers that `insert_next_block_headers` stores: only the first
+    `env.headerSlots` blobs are looked at (instruction threshold) -/
+def insertedHeaders (env : Env) (s : State) (raws : List String) : List NextHeader :=
+  insertedHeadersAll env s (raws.take env.headerSlots)
 
 /-- the operations of `Spec.step2` a processing heartbeat amounts to, for a stored complete
     response `r`: a `push` for every accepted block, then — if no block was refused — an
